@@ -7,7 +7,7 @@
    run loop.  Go's channel (capacity 1 = one-slot option) and sync.Mutex (atomic sections)
    semantics are assumed by the model. *)
 From Eino Require Import Base.Util Model.TaskMgr Model.Confluence Model.EagerSkip Model.RunHandoff.
-From Eino Require Import Proofs.TaskMgr Proofs.TaskMgrProgress Proofs.TaskMgrTrace Proofs.Confluence Proofs.Eager Proofs.HandoffOrder Proofs.TaskMgrComplete Proofs.RunHandoff Proofs.RunHandoffOrder Proofs.RunHandoffLive Proofs.EagerSkip.
+From Eino Require Import Proofs.TaskMgr Proofs.TaskMgrProgress Proofs.TaskMgrTrace Proofs.Confluence Proofs.Eager Proofs.HandoffOrder Proofs.TaskMgrComplete Proofs.RunHandoff Proofs.RunHandoffOrder Proofs.RunHandoffLive Proofs.RunHandoffLiveBatch Proofs.EagerSkip.
 From Coq Require Import Permutation.
 
 (* ---- every finished task is in exactly one of l / done / the collector's hands / collected;
@@ -381,6 +381,29 @@ Theorem run_eager_never_stuck : forall g F s r,
   creach false Dag g F (s, r) -> r_res r = None -> exists y, cstep false Dag g (s, r) y.
 Proof. intros g F s r Hnd Hs. exact (cstep_enabled g Hnd Hs F s r). Qed.
 Print Assumptions run_eager_never_stuck.
+
+(* batch mode, no hang, for whole runs (pregel and dag channels, every fuel = maxRunSteps): from
+   every reachable state of the composed system every maximal path reaches the return of the run;
+   before the return the system is never stuck - waitAll hands back exactly the tasks of the step,
+   with the error flags of their bodies (the guards of the resolve transition never block).
+   Hypothesis: the canonical run executes no node twice (the composed system, like the trace events
+   of the implementation, uses the node key as the key of a task; true of every acyclic graph) *)
+Theorem run_batch_no_hang : forall m g F x,
+  NoDup (map n_id g) -> NoDup (map fst (snd (batch (fun l => l) m g F))) ->
+  creach true m g F x -> CAFb m g (fun y => r_res (snd y) <> None) x.
+Proof. intros m g F x Hnd Hf. exact (batch_no_hang m g F Hnd Hf x). Qed.
+Print Assumptions run_batch_no_hang.
+
+Theorem run_batch_never_stuck : forall m g F s r,
+  NoDup (map n_id g) -> NoDup (map fst (snd (batch (fun l => l) m g F))) ->
+  creach true m g F (s, r) -> r_res r = None -> exists y, cstep true m g (s, r) y.
+Proof. intros m g F s r Hnd Hf. exact (cstep_enabled_b m g F Hnd Hf s r). Qed.
+Print Assumptions run_batch_never_stuck.
+
+Example run_batch_no_hang_nonvacuous :
+  NoDup (map n_id g_demo) /\ NoDup (map fst (snd (batch (fun l => l) Dag g_demo 20))) /\
+  NoDup (map fst (snd (batch (fun l => l) Pregel g_demo 20))).
+Proof. vm_compute. repeat split; repeat constructor; simpl; intuition discriminate. Qed.
 
 (* non-vacuity: an eager path that returns END's value and leaves task 4 in flight; a batch path in
    which the step is collected in the order 4, 3 and that returns the canonical result *)
